@@ -32,7 +32,7 @@ structure St where
   deriving DecidableEq, Repr
 
 inductive Ev where
-  | admit (batch : List Call)     -- `checkAndAssignLocked` on the calls of one inbound message
+  | admitB (batch : List Call)     -- `checkAndAssignLocked` on the calls of one inbound message
   | deliver (uids : List Nat)     -- `deliver` for the executed members of one message
   | cancelReq (id : Id)           -- `CancelRequest(id)`
   | stop
@@ -68,7 +68,7 @@ def releaseAll (s : St) : List Call → St
   | c :: cs => releaseAll (release s c) cs
 
 def step (s : St) : Ev → Option St
-  | .admit batch =>
+  | .admitB batch =>
     if s.stopped then none else   -- a stopped server dispatches only retained notifications (no ids)
     -- phase 1: ids used twice in the batch fail together; ids reserved by earlier messages fail
     let dupInBatch := fun (c : Call) => (batch.filter (fun x => x.id = c.id)).length ≥ 2
